@@ -15,7 +15,11 @@ from sim.loop import GRID
 from sim.prop import Prop, sweep_expand
 
 U = 128 * GRID  # 1/8 s
-OUTCOMES = ("value", "exc", "base", "raise_cancelled", "self_cancel", "ignore_value", "ignore_exc", "own_timeout")
+OUTCOMES = ("value", "exc", "base", "raise_cancelled", "self_cancel", "ignore_value", "ignore_exc", "own_timeout", "bad_call")
+# the function's own exception need not be a harness class: exception types that asyncio itself uses for control flow
+EXC_CLASSES = (("Injected", Injected), ("InvalidStateError", asyncio.InvalidStateError), ("StopAsyncIteration", StopAsyncIteration),
+               ("AssertionError", AssertionError), ("RuntimeError", RuntimeError), ("QueueEmpty", asyncio.QueueEmpty),
+               ("IncompleteReadError", lambda tag: asyncio.IncompleteReadError(b"", 1)))
 
 
 class OwnTimeout(TimeoutError):
@@ -31,7 +35,8 @@ class C16(Prop):
     }
     rule_text = (
         "one case = (duration d, outcome in {value, Exception, BaseException, raises CancelledError, cancels itself, "
-        "ignores first cancel then value/exception}, timeout T in {d-eps,d,d+eps,0,other}, start instant, caller "
+        "ignores first cancel then value/exception, a TimeoutError of its own, call that does not bind}, exception class in {harness, "
+        "InvalidStateError, StopAsyncIteration, AssertionError, RuntimeError, QueueEmpty, IncompleteReadError}, timeout T in {d-eps,d,d+eps,0,other}, start instant, caller "
         "cancel at an exact instant or at loop iteration k) + schedule (order of same-instant timers, lateness); "
         "profile 'sweep' enumerates the cancel over EVERY loop iteration of the fault-free twin; distinct = "
         "distinct event-log digest; non-trivial = a timeout fired, or a cancel landed while the call was in flight, "
@@ -60,6 +65,9 @@ class C16(Prop):
         # the second call may be made from a second event loop (asyncio.run twice) through the same wrapper object
         second_loop = ncalls == 2 and profile == "timed" and s.chance(1, 3, "second-loop")
         pre_cancelled = profile == "timed" and s.chance(1, 8, "pre-cancelled")
+        # callers may work inside a scope with state: the function runs in a task of its own, started by the library on the
+        # caller's behalf - it sees the caller's state, and its own updates are never visible to the caller
+        scoped = s.chance(1, 3, "callers-in-scope")
         specs = []
         for ci in range(ncalls):
             d_steps = (0, 128, 256, 384, 1)[s.draw(5, "d")]
@@ -78,6 +86,7 @@ class C16(Prop):
             else:
                 t_steps = max(0, d_steps - 128)
             e_steps = (0, 128, 1)[s.draw(3, "e")] if outcome.startswith("ignore") else 0
+            exc_class = s.weighted((6, 2, 1, 1, 1, 1, 1), "exc-class") if outcome in ("exc", "ignore_exc") else 0
             t0_steps = (0, 384, 5)[s.draw(3, "t0")]
             # the wrapped function may itself be a haiway wrapper object (stacked decorators): an inner timeout
             # that never fires must not change anything
@@ -103,9 +112,22 @@ class C16(Prop):
                     c_steps = lo - 1 if lo > start else None
             if ci == 1 and s.chance(1, 2, "share-wrapper"):
                 t_steps, stacked = specs[0]["T"], specs[0]["stacked"]
+            if outcome == "bad_call":
+                stacked = False  # (under a second wrapper the failed invocation is an ordinary exception inside the inner call)
             specs.append({"d": d_steps, "outcome": outcome, "T": t_steps, "e": e_steps, "t0": t0_steps,
-                          "c": c_steps, "stacked": int(stacked)})
-        sim.program = {"calls": specs, "inject_at_iteration": sim.inject_choice if profile == "sweep" else 0,
+                          "c": c_steps, "stacked": int(stacked), "exc_class": EXC_CLASSES[exc_class][0]})
+        from haiway import MissingContext, State, ctx
+
+        class Tag(State):
+            value: int = -1
+
+        def visible_tag():
+            try:
+                return ctx.state(Tag).value
+            except MissingContext:
+                return "no-context"
+
+        sim.program = {"calls": specs, "callers_in_scope": int(scoped), "inject_at_iteration": sim.inject_choice if profile == "sweep" else 0,
                        "second_call_on_second_event_loop": int(second_loop)}
         jitter = sim.jitter_steps * GRID
 
@@ -113,7 +135,7 @@ class C16(Prop):
 
         def make_fn(ci, spec):
             rec = {"started": [], "cancel_seen": [], "ended": None, "result": Obj(("r", ci)),
-                   "exc": Injected(("e", ci)), "base": InjectedBase(("b", ci)), "own": OwnTimeout(("t", ci))}
+                   "exc": dict(EXC_CLASSES)[spec["exc_class"]](("e", ci)), "base": InjectedBase(("b", ci)), "own": OwnTimeout(("t", ci))}
 
             async def fn(arg, *, kw=None, **extra):
                 rec["started"].append(sim.now)
@@ -122,6 +144,12 @@ class C16(Prop):
                     sim.fail("arguments", f"function called with {arg!r}, kw={kw!r}, extra keywords {extra!r} (expected {odd_kwargs!r})")
                 out = spec["outcome"]
                 d = spec["d"] * GRID
+                want_tag = ci if scoped else "no-context"
+                if visible_tag() != want_tag:
+                    sim.fail("function-state", f"call {ci}: the function observed state {visible_tag()!r} where the caller had {want_tag!r}")
+                update = ctx.updated(Tag(value=100 + ci)) if scoped else None
+                if update is not None:
+                    update.__enter__()
                 try:
                     try:
                         await asyncio.sleep(d)
@@ -151,6 +179,10 @@ class C16(Prop):
                         await asyncio.sleep(0)
                         sim.harness_error("self-cancel did not take effect")
                 finally:
+                    if update is not None:
+                        if visible_tag() != 100 + ci:
+                            sim.fail("function-state", f"call {ci}: the function lost its own update: sees {visible_tag()!r}")
+                        update.__exit__(None, None, None)
                     rec["ended"] = sim.now
                     sim.event("fn-end", ci)
 
@@ -158,6 +190,18 @@ class C16(Prop):
             return fn, rec
 
         async def caller(ci, spec, wrapped, out):
+            if not scoped:
+                return await caller_body(ci, spec, wrapped, out)
+            async with ctx.scope(f"caller{ci}", Tag(value=ci)):
+                try:
+                    return await caller_body(ci, spec, wrapped, out)
+                finally:
+                    # (no further suspension here: the caller task must end exactly when the call does)
+                    if visible_tag() != ci:
+                        sim.fail("caller-state", f"call {ci}: after the call ended ({out.get('kind')}) the caller sees state "
+                                 f"{visible_tag()!r} instead of its own {ci}", after=str(out.get("kind")))
+
+        async def caller_body(ci, spec, wrapped, out):
             if spec["t0"]:
                 try:
                     await asyncio.sleep(spec["t0"] * GRID)
@@ -174,13 +218,19 @@ class C16(Prop):
             out["called"] = sim.now
             sim.event("call", ci)
             try:
-                r = await wrapped(("a", ci), kw=("k", ci), **odd_kwargs)
+                if spec["outcome"] == "bad_call":
+                    # the call itself does not bind: the wrapped function raises TypeError when invoked, before any coroutine exists
+                    r = await wrapped(("a", ci), kw=("k", ci), no_such_parameter=1)
+                else:
+                    r = await wrapped(("a", ci), kw=("k", ci), **odd_kwargs)
             except asyncio.CancelledError as exc:
                 out["kind"], out["obj"] = "cancelled", exc
             except TimeoutError as exc:
                 out["kind"], out["obj"] = "timeout", exc
             except BaseException as exc:  # noqa: BLE001
                 out["kind"], out["obj"] = "raised", exc
+                if spec["outcome"] == "bad_call":
+                    exc.__traceback__ = None  # do not keep the wrapper's frame (and whatever it left behind) alive through the record
             else:
                 out["kind"], out["obj"] = "value", r
             out["at"] = sim.now
@@ -194,16 +244,23 @@ class C16(Prop):
             return await fns[ci][0](arg, kw=kw, **extra)
 
         dispatch.__name__ = "fn"
+
+        async def strict(arg, *, kw=None):  # a signature that rejects unknown keywords
+            return await fns[arg[1]][0](arg, kw=kw)
+
+        strict.__name__ = "fn"
         wrappers = {}
 
         def wrapper_for(spec):
-            key = (spec["T"], spec["stacked"])
+            bad = spec["outcome"] == "bad_call"
+            key = (spec["T"], spec["stacked"], bad)
+            target = strict if bad else dispatch
             if key not in wrappers:
                 if spec["stacked"]:
                     sim.stats["stacked_decorators"] += 1
-                    wrappers[key] = timeout(spec["T"] * GRID)(timeout(8192 * GRID)(dispatch))
+                    wrappers[key] = timeout(spec["T"] * GRID)(timeout(8192 * GRID)(target))
                 else:
-                    wrappers[key] = timeout(spec["T"] * GRID)(dispatch)
+                    wrappers[key] = timeout(spec["T"] * GRID)(target)
             else:
                 sim.stats["overlapping_calls_share_wrapper"] += 1
             return wrappers[key]
@@ -301,6 +358,16 @@ class C16(Prop):
             # cancelled before the call was made: the function must never start
             if rec["started"]:
                 sim.fail_post("started-after-cancel", f"call {ci}: function started although the caller was cancelled before calling")
+            return
+        if o == "bad_call":
+            # the function raised when it was invoked: that TypeError is the call's outcome, at once, and nothing is left behind
+            # (an armed deadline would later show up as a loop error or a pending timer)
+            sim.stats["call_did_not_bind"] += 1
+            if rec["started"]:
+                sim.fail_post("start", f"call {ci}: function body ran although the call did not bind")
+            elif not cancel_effective and not (kind == "raised" and isinstance(obj, TypeError) and abs(at - called) <= eps):
+                sim.fail_post("outcome", f"call {ci}: the call did not bind (TypeError on invocation at {called}) but the caller got {kind} {obj!r} at {at}",
+                              got=str(kind), want="natural", fn=o)
             return
         if len(rec["started"]) != 1 or abs(rec["started"][0] - called) > eps:
             sim.fail_post("start", f"call {ci}: function started {rec['started']} but the call was made at {called}")
